@@ -402,7 +402,12 @@ fn run_history(rep: &mut Report, prop: &str, seed: u64, len: usize) -> HistoryOu
     let c05 = prop == "C05";
     let last_n = if c05 { *rng.pick(&[1u64, 2, 3, 5, 10, 30, 100]) } else { *rng.pick(&[2u64, 3, 5, 5, 100]) };
     // ---- chains
-    let mut main = SimChain::new_dummy();
+    // one history in four of C01 runs on a chain with a real proof of work (Eaglesong, easy
+    // targets), on which a fork may contain a block whose nonce is NOT valid: what a cheating
+    // peer's chain looks like.  Chosen from the seed, not drawn, so that the other histories
+    // keep their random streams.
+    let real_pow = prop == "C01" && seed % 4 == 0;
+    let mut main = if real_pow { SimChain::new_eaglesong() } else { SimChain::new_dummy() };
     let plan = legal_plan(&mut rng, &main);
     let n0 = if c05 && rng.chance(1, 4) { rng.range(300, 1500) } else if c05 && rng.chance(1, 6) { rng.range(1, 4) } else { rng.range(last_n + 3, 160) };
     main.append_epochs(&plan, n0);
@@ -759,7 +764,13 @@ fn run_history(rep: &mut Report, prop: &str, seed: u64, len: usize) -> HistoryOu
                 }
                 let at = base.tip_number().saturating_sub(depth).max(1);
                 let mut f = base.fork(at, 77 + world.chains.len() as u64);
-                f.append_simple(depth + rng.range(1, 4));
+                let grow = depth + rng.range(1, 4);
+                if real_pow {
+                    // a block of the fork without a valid nonce (position from the seed)
+                    f.break_pow_at.insert(at + 1 + (seed / 4) % grow);
+                    rep.count_class("c01:fork-with-invalid-pow-block");
+                }
+                f.append_simple(grow);
                 now = now.max(f.tip().timestamp() + 5000);
                 set_now(now);
                 world.chains.push(f);
@@ -1270,6 +1281,24 @@ fn run_history(rep: &mut Report, prop: &str, seed: u64, len: usize) -> HistoryOu
                 let changed = before != after;
                 if changed {
                     nontrivial = true;
+                }
+                if prop == "C01" && changed && real_pow {
+                    let engine = node.env.consensus.pow_engine();
+                    let bad: Vec<u64> = headers
+                        .iter()
+                        .chain(Some(&last_vh))
+                        .filter(|h| !engine.verify(&h.header().data()))
+                        .map(|h| h.header().number())
+                        .collect();
+                    if !bad.is_empty() {
+                        let mut rp = replay.clone();
+                        rp.push(format!("# at op line {} (step {}), edit {:?}: headers {:?} have no valid nonce", lines.len(), step, edit, bad));
+                        rep.violate(
+                            "C01|accepted|invalid-pow",
+                            "trusted state changed on a response that contains a header without a valid proof of work",
+                            rp,
+                        );
+                    }
                 }
                 if prop == "C01" && changed && (effective || edit == Edit::Unsolicited) {
                     let mut rp = replay.clone();
